@@ -2689,36 +2689,37 @@ impl Compiler {
             mutable: true, // Enums are mutable like objects
         });
 
-        // Track the current numeric value for auto-increment
-        let mut current_value: i64 = 0;
+        // Auto-increment: a member without an initializer is the previous member's value + 1
+        // (0 for the first member). The previous value is still in `value_reg`, so this also
+        // holds after negative, fractional and computed initializers.
         let value_reg = self.builder.alloc_register()?;
         let key_reg = self.builder.alloc_register()?;
 
         // Track prior member names for rewriting identifier references
         let mut prior_members: Vec<JsString> = Vec::new();
 
-        for member in &decl.members {
+        for (member_index, member) in decl.members.iter().enumerate() {
             let member_name = member.id.name.cheap_clone();
             let name_idx = self.builder.add_string(member_name.cheap_clone())?;
 
             if let Some(ref init) = member.initializer {
                 // Compile the initializer expression, rewriting references to prior enum members
                 self.compile_enum_init_expression(init, value_reg, enum_obj, &prior_members)?;
-
-                // Try to compute the numeric value for auto-increment
-                // This is a simplified version - in reality, we'd need const evaluation
-                if let crate::ast::Expression::Literal(lit) = init
-                    && let crate::ast::LiteralValue::Number(n) = &lit.value
-                {
-                    current_value = *n as i64 + 1;
-                }
-            } else {
-                // Use auto-increment value
+            } else if member_index == 0 {
                 self.builder.emit(Op::LoadInt {
                     dst: value_reg,
-                    value: current_value as i32,
+                    value: 0,
                 });
-                current_value += 1;
+            } else {
+                self.builder.emit(Op::LoadInt {
+                    dst: key_reg,
+                    value: 1,
+                });
+                self.builder.emit(Op::Add {
+                    dst: value_reg,
+                    left: value_reg,
+                    right: key_reg,
+                });
             }
 
             // Add this member to prior members for subsequent initializers
